@@ -13,12 +13,29 @@ COQ_DEPS = ["Common/ListX.v", "Common/ObsHash.v", "Generated/Tables.v", "Model/P
 COQ_IMPORTS = "From Mesa Require Import Model.PropLayer."
 COQ_CASE_TYPE = "case"
 COQ_RUN = "run_case"
-TABLE_CONSTRUCTS = []
-RULE = ("histories = one grid (discrete: OrthogonalMoore/VonNeumann/Hex, 2-D and 3-D; legacy: SingleGrid, MultiGrid "
-        "without agents) of at most 12 cells + 6..22 operations out of: create/add/remove layers (incl. clashes, wrong "
+TABLE_CONSTRUCTS = ["select_order_discrete", "select_order_legacy", "select_empty_source"]
+_PL, _SP, _DS = "mesa/discrete_space/property_layer.py", "mesa/space.py", "mesa/discrete_space/"
+# the source functions Model/PropLayer.v transcribes (harness/fingerprint.py: a change escalates the search)
+SOURCE_FUNCS = [
+    (_PL, "PropertyLayer.__init__"), (_PL, "PropertyLayer.set_cells"), (_PL, "PropertyLayer.modify_cells"),
+    (_PL, "HasPropertyLayers.create_property_layer"), (_PL, "HasPropertyLayers.add_property_layer"),
+    (_PL, "HasPropertyLayers.remove_property_layer"), (_PL, "HasPropertyLayers.set_property"),
+    (_PL, "HasPropertyLayers.modify_properties"), (_PL, "HasPropertyLayers.select_cells"),
+    (_PL, "PropertyDescriptor"), (_PL, "ufunc_requires_additional_input"),
+    (_DS + "cell.py", "Cell.add_agent"), (_DS + "cell.py", "Cell.remove_agent"), (_DS + "cell.py", "Cell.is_empty"),
+    (_DS + "cell_agent.py", "HasCell"), (_DS + "cell_agent.py", "BasicMovement"), (_DS + "grid.py", "Grid.__init__"),
+    (_SP, "PropertyLayer"), (_SP, "_PropertyGrid"), (_SP, "ufunc_requires_additional_input"),
+    (_SP, "is_single_argument_function"), (_SP, "_Grid.move_agent"), (_SP, "_Grid.is_cell_empty"),
+    (_SP, "SingleGrid.place_agent"), (_SP, "SingleGrid.move_agent"), (_SP, "SingleGrid.remove_agent"),
+    (_SP, "MultiGrid.place_agent"), (_SP, "MultiGrid.remove_agent"),
+]
+RULE = ("histories = one grid (discrete: OrthogonalMoore/VonNeumann/Hex, 2-D and 3-D, cell capacity none/1/2; legacy: "
+        "SingleGrid, MultiGrid, HexSingleGrid, HexMultiGrid) of at most 12 cells + 6..22 operations out of: create/add/remove layers (incl. clashes, wrong "
         "shape, detached layers re-attached), cell writes, layer writes (incl. negative and out-of-range indices), "
         "set_cells / modify_cells with and without condition (binary ufunc, unary ufunc, python function), "
-        "modify_cell, full-array assignment, agent place/move/remove, select_cells over conditions x masks x "
+        "modify_cell, full-array assignment, agent place / move (cell setter, move_to, move_agent) / move_relative / "
+        "remove incl. the rejected ones (occupied SingleGrid cell, full cell, no cell in that direction) and several "
+        "agents per MultiGrid cell, select_cells over conditions x masks x "
         "only_empty x extreme values (ties on purpose) in list and mask form; the whole state (every layer through "
         "the layer view and through the cell attributes, the three name tables, emptiness) is observed after every "
         "operation; non-trivial = at least 4 operations of which one write/bulk op succeeded and one select returned "
@@ -39,9 +56,8 @@ ASSUMPTIONS = [
     "int/float layers, arithmetic ufuncs on bool layers, comparisons returning non-bool), conditions that are ufuncs, "
     "indices with fewer components than the array has axes, masks of a shape other than the grid's",
     "the built-in 'empty' layer is read (conditions, only_empty) but never written or removed by the history itself; "
-    "cells have no capacity limit (capacity is C06's subject)",
-    "legacy MultiGrid histories contain no agents (its empty_mask defect belongs to C08); legacy move_agent onto an "
-    "occupied cell is not executed (C08/C18 defect #8)",
+    "cell capacities are None, 1 or 2 (the emptiness theorem assumes capacity >= 0); grids are not tori; "
+    "move_relative is issued on Moore / von Neumann grids only (hex connection keys belong to C07)",
     "order of select_cells' list form is row-major (np.where order), compared in order",
 ]
 E_VALUE, E_KEY, E_INDEX, E_ATTR, E_TYPE, E_EXC = 1, 2, 3, 4, 5, 6
@@ -211,24 +227,24 @@ class _G:
                 return others < self.cap or self.agents.get(a) == c
             return True
 
-        if k < 0.45 or not self.agents:
+        if k < 0.4 or not self.agents:
             c = list(r.choice(self.coords))
-            if not accepts(c) and r.random() < 0.6:
+            if not accepts(c) and r.random() < 0.35:
                 return
             a = self.next_agent
             self.next_agent += 1
             self.ops.append(["place", a, c])
             if accepts(c):
                 self.agents[a] = c
-        elif k < 0.7:
+        elif k < 0.62:
             a = r.choice(list(self.agents))
             c = list(r.choice(self.coords))
-            if not accepts(c, a) and r.random() < 0.5:
+            if not accepts(c, a) and r.random() < 0.25:
                 return
             self.ops.append(["move", a, c])
             if accepts(c, a):
                 self.agents[a] = c
-        elif k < 0.82 and self.impl == "discrete" and self.cls != "HexGrid":
+        elif k < 0.84 and self.impl == "discrete" and self.cls != "HexGrid":
             a = r.choice(list(self.agents))
             nd = len(self.dims)
             d = [r.choice([-1, 0, 0, 1]) for _ in range(nd)]
@@ -350,7 +366,8 @@ def _random_case(rng, impl=None, n_ops=None):
     for _ in range(rng.choice([1, 2, 2, 3])):
         g.add_new_layer(attach=True)
     n_ops = n_ops or rng.randint(6, 20)
-    menu = [g.op_write] * 4 + [g.op_set] * 3 + [g.op_modify] * 4 + [g.op_agent] * 4 + [g.op_layers] * 3 + [g.op_select] * 6
+    menu = ([g.op_write] * 4 + [g.op_set] * 3 + [g.op_modify] * 4 + [g.op_agent] * rng.choice([5, 5, 14])
+            + [g.op_layers] * 3 + [g.op_select] * 6)
     while len(g.ops) < n_ops:
         rng.choice(menu)()
     return {"impl": impl, "cls": cls, "dims": list(dims), "cap": cap, "ops": g.ops}
@@ -361,6 +378,10 @@ def gen_cases(rng, tier):
     n = 700 if tier == "quick" else 9000
     for _ in range(n):
         cases.append(_random_case(rng))
+    # the structured agent histories (every rejection, shared and full cells) also go through the model
+    for c in enumerate_cases("quick"):
+        if c["ops"] and c["ops"][0][0] == "place":
+            cases.append(c)
     return cases
 
 
@@ -388,8 +409,11 @@ def enumerate_cases(tier, broken=False):
                     h1, h2 = 0, 1
                 pre.append(["setarr", ["h", h1], [rng.choice([0, 1, 2, 2]) for _ in range(size)]])
                 pre.append(["setarr", ["n", 2], [rng.choice([8, 16, 16, 24]) for _ in range(size)]])
-                for a in range(1, 1 + max(1, size // 3)):
-                    pre.append(["place", a, rng.choice(coords)])
+                legcls = ["SingleGrid", "MultiGrid"][rep % 2] if tier == "thorough" else "MultiGrid"
+                for a in range(1, 1 + max(2, size // 2)):
+                    pre.append(["place", a, rng.choice(coords)])      # MultiGrid: several agents share a cell
+                pre.append(["rm", 1])
+                pre.append(["move", 2, rng.choice(coords)])
                 selects = []
                 condsets = [[], [[1, ["ge", 1]]], [[2, ["lt", 24]]], [[1, ["ne", 0]], [2, ["ge", 16]]], [[1, ["gt", 7]]]]
                 extsets = [[], [[1, 0]], [[1, 1]], [[2, 0]], [[1, 0], [2, 1]], [[2, 1], [1, 0]]]
@@ -402,8 +426,8 @@ def enumerate_cases(tier, broken=False):
                             for oe in (False, True):
                                 selects.append(["select", cs, es, ms, oe, (len(selects) % 3) != 0, len(ms) == 1])
                 for s in range(0, len(selects), 40):
-                    yield {"impl": impl, "cls": ("OrthogonalMooreGrid" if impl == "discrete" else "SingleGrid"),
-                           "dims": list(dims), "ops": pre + selects[s:s + 40]}
+                    yield {"impl": impl, "cls": ("OrthogonalMooreGrid" if impl == "discrete" else legcls),
+                           "dims": list(dims), "cap": 0, "ops": pre + selects[s:s + 40]}
             # rejecting calls
             rej = []
             if impl == "discrete":
@@ -431,7 +455,26 @@ def enumerate_cases(tier, broken=False):
                         ["place", 1, coords[0]], ["place", 2, coords[0]],
                         ["select", [], [[1, 2]], [], False, True, False]]
             yield {"impl": impl, "cls": ("OrthogonalVonNeumannGrid" if impl == "discrete" else "SingleGrid"),
-                   "dims": list(dims), "ops": rej}
+                   "dims": list(dims), "cap": 0, "ops": rej}
+            # agents: every rejection (full cell via place / move / move_relative, occupied SingleGrid cell, no cell in
+            # that direction) from a state with a shared / full cell, each followed by only_empty selections
+            sel = [["select", [], [], [], True, True, False], ["select", [], [], [], True, False, False]]
+            c0, c1 = coords[0], coords[-1]
+            nd = len(dims)
+            step = [0] * (nd - 1) + [1]
+            if impl == "discrete":
+                for cls in ("OrthogonalMooreGrid", "OrthogonalVonNeumannGrid"):
+                    for cap in (0, 1, 2):
+                        ops = [["place", 1, c0], ["place", 2, c0], ["place", 3, c0], *sel, ["place", 4, c1], ["move", 4, c0],
+                               ["mrel", 4, [-x for x in step]], ["mrel", 4, [0] * nd], ["mrel", 4, [1] * nd], ["mrel", 1, step],
+                               *sel, ["mrel", 1, [-x for x in step]], ["mrel", 1, [-x for x in step]], ["move", 1, c0],
+                               ["rm", 1], ["rm", 2], *sel, ["move", 4, c0], ["move", 4, c0], *sel]
+                        yield {"impl": impl, "cls": cls, "dims": list(dims), "cap": cap, "ops": ops}
+            else:
+                for cls in ("SingleGrid", "MultiGrid", "HexSingleGrid", "HexMultiGrid"):
+                    ops = [["place", 1, c0], ["place", 2, c0], ["place", 3, c1], *sel, ["move", 3, c0], ["move", 1, c0],
+                           ["move", 1, c1], *sel, ["rm", 2], ["rm", 1], *sel, ["rm", 3], *sel, ["place", 2, c0], ["move", 2, c0], *sel]
+                    yield {"impl": impl, "cls": cls, "dims": list(dims), "cap": 0, "ops": ops}
     # random histories with more selects
     for i in range(200 if tier == "quick" else 1500):
         yield _random_case(rng)
